@@ -75,5 +75,12 @@ int redirect_path(int *child, REPROC_STREAM stream, const char *path)
 
   *child = r;
 
+  // The child process `dup2`s onto 0-2, so stay clear of them.
+  r = handle_above_std(child);
+  if (r < 0) {
+    *child = handle_destroy(*child);
+    return r;
+  }
+
   return 0;
 }
